@@ -2,6 +2,7 @@
 //! vharness — runtime monitors for vibrato. Driven by /verif/run.
 mod dictprops;
 mod gen;
+mod miscprops;
 mod model;
 mod oracles;
 mod real;
@@ -9,6 +10,7 @@ mod report;
 mod rng;
 mod tokprops;
 mod tokprops2;
+mod trainprops;
 
 use report::{Ctx, Tier};
 use rng::Rng;
@@ -101,8 +103,16 @@ fn run_case(ctx: &mut Ctx, rng: &mut Rng, stage: &str, xdir: &str) {
         "C05" => dictprops::c05_case(ctx, rng, stage, xdir),
         "C07" => dictprops::c07_case(ctx, rng, stage),
         "C09" => dictprops::c09_case(ctx, rng, stage),
+        "C10" => miscprops::c10_case(ctx, rng),
         "C11" => dictprops::c11_case(ctx, rng),
         "C13" => dictprops::c13_case(ctx, rng),
+        "C14" => trainprops::c14_case(ctx, rng),
+        "C15" => trainprops::c15_case(ctx, rng),
+        "C16" => trainprops::c16_case(ctx, rng),
+        "C17" => trainprops::c17_case(ctx, rng),
+        "C18" => trainprops::c18_case(ctx, rng),
+        "C19" => miscprops::c19_case(ctx, rng, xdir),
+        "C20" => miscprops::c20_case(ctx, rng),
         "C06" => tokprops2::c06_case(ctx, rng),
         "C08" => tokprops2::c08_case(ctx, rng),
         "C12" => tokprops2::c12_case(ctx, rng),
